@@ -97,6 +97,11 @@ def gen_component(rng, npoints, fmt_len, uni):
     if rng.random() < 0.1 and fmt_len >= 1:
         fmt = [rng.choice(cps(letters)) for _ in range(fmt_len)]
     points = [gen_name(rng, None if uni else "ascii") for _ in range(npoints)]
+    if npoints >= 2 and rng.random() < 0.15:
+        # two names that are digit reversals of each other: exchanging them gives a header of the same length and the same
+        # bytes in another order (see anagram_case) - a different skeleton that only a real digest of the bytes tells apart
+        i, j = rng.sample(range(npoints), 2)
+        points[i], points[j] = cps("p01"), cps("p10")
     nl = rng.randrange(0, 4)
     limbs = [[rng.randrange(0, max(1, npoints)), rng.randrange(0, max(1, npoints))] for _ in range(nl)]
     if nl and rng.random() < 0.15:
@@ -433,6 +438,21 @@ def set_memo(state, other_bytes=None, same_bytes=None):
             _scribble(Pose.read(twin_bytes(same_bytes)))
         except Exception:
             pass
+
+
+def anagram_case(case):
+    """the same pose with the point names "p01" and "p10" of one component exchanged (None when the case has no such pair): its
+    header has the same length, the same multiset of bytes and even the same position-weighted byte sum as the case's own"""
+    import copy as _copy
+    a, b = cps("p01"), cps("p10")
+    for k, c in enumerate(case["comps"]):
+        if a in c["points"] and b in c["points"]:
+            c2 = _copy.deepcopy({key: v for key, v in case.items() if not key.startswith("_")})
+            pts = c2["comps"][k]["points"]
+            i, j = pts.index(a), pts.index(b)
+            pts[i], pts[j] = pts[j], pts[i]
+            return c2
+    return None
 
 
 V01_WORD = struct.pack("<f", 0.1)
